@@ -387,6 +387,15 @@ impl Runner {
             .collect();
         Ok(Runner { k, seen: 0, abs_tick: 0, trace: vec![], names, held: vec![] })
     }
+    /// a Kanata for a configuration given as text (L lines)
+    fn from_text(text: &str) -> Result<Self, String> {
+        let k = Kanata::new_from_str(text, Default::default()).map_err(|e| format!("{e:?}"))?;
+        let names = KEYS
+            .iter()
+            .map(|n| (format!("{:?}", KeyCode::from(str_to_oscode(n).unwrap())), osc(n)))
+            .collect();
+        Ok(Runner { k, seen: 0, abs_tick: 0, trace: vec![], names, held: vec![] })
+    }
     fn code_of(&self, name: &str) -> u16 {
         for (n, c) in &self.names {
             if n == name {
@@ -886,8 +895,147 @@ pub fn eval(line: &str) -> String {
             Some(c) => run_k(&c).0,
             None => "harness-error bad case line".to_string(),
         },
+        Some("L") => match parse_l(&mut t) {
+            Some(c) => run_l(&c),
+            None => "harness-error bad case line".to_string(),
+        },
         _ => "harness-error bad case line".to_string(),
     }
+}
+
+// ------------------------------------------------------------------ L lines: model-free end to end
+//
+// `C19 L <hex(cfg text)> <nstop> <stop osc>* <nsteps> step*` - a real `Kanata` on a configuration
+// given as text, for key shapes the one-layer model `Flat` does not have: dynamic-macro actions that
+// fire LATE (as the tap of a tap-hold, i.e. on the release of the key; as a tap-dance item, i.e. at
+// the dance timeout; behind a pending tap-hold that holds the queue). Steps as in K lines, except
+// that `t n` is n calls of `tick_ms(1)`. At the end every key still held is released and 3000 more
+// ticks run. Output: `L <OS key events> # st <stored macros> # V rest=<0|1> starts=<n> clean=<0|1>`
+//   rest   = during the last 1500 of those ticks nothing was sent to the OS and no replay was active
+//   starts = how many times a replay began (replay state None -> Some over one tick)
+//   clean  = no key is down at the OS at the end
+// The listed stop keys are keys whose (only) dynamic-macro action is a stop; the generator taps each
+// of them only to stop a running recording, so none of their events belongs into a stored macro.
+// Judged by `_c19_free_oracle` in runner/props.py; the Lean driver answers `L` (no model).
+
+pub struct LCase {
+    pub cfg: String,
+    pub stops: Vec<u16>,
+    pub steps: Vec<Step>,
+}
+
+pub fn l_line(c: &LCase) -> String {
+    let mut s = format!("C19 L {} {}", crate::lay::hex(&c.cfg), c.stops.len());
+    for o in &c.stops {
+        s.push_str(&format!(" {o}"));
+    }
+    s.push_str(&format!(" {}", c.steps.len()));
+    for st in &c.steps {
+        match st {
+            Step::D(o) => s.push_str(&format!(" d {o}")),
+            Step::U(o) => s.push_str(&format!(" u {o}")),
+            Step::T(n) => s.push_str(&format!(" t {n}")),
+            Step::W(n) => s.push_str(&format!(" w {n}")),
+            Step::M => s.push_str(" m"),
+            Step::H(h) => s.push_str(&format!(" h {}", hint_str(h))),
+        }
+    }
+    s
+}
+
+fn parse_l(t: &mut Toks) -> Option<LCase> {
+    let cfg = crate::lay::unhex(t.next()?);
+    let stops = t.hint()?;
+    let ns = t.num()?;
+    let mut steps = vec![];
+    for _ in 0..ns {
+        steps.push(match t.next()? {
+            "d" => Step::D(t.num()? as u16),
+            "u" => Step::U(t.num()? as u16),
+            "t" => Step::T(t.num()? as u32),
+            "w" => Step::W(t.num()? as u32),
+            _ => return None,
+        });
+    }
+    Some(LCase { cfg, stops, steps })
+}
+
+const L_TAIL: u32 = 3000;
+const L_QUIET: u32 = 1500;
+
+fn run_l(c: &LCase) -> String {
+    let mut r = match Runner::from_text(&c.cfg) {
+        Ok(r) => r,
+        Err(e) => return format!("harness-error cfg rejected: {}", e.replace('\n', " ")),
+    };
+    let mut starts = 0u32;
+    let mut tick1 = |r: &mut Runner| {
+        let was = r.k.dynamic_macro_replay_state.is_some();
+        r.k.tick_ms(1, &None).expect("tick_ms");
+        if !was && r.k.dynamic_macro_replay_state.is_some() {
+            starts += 1;
+        }
+    };
+    for st in &c.steps {
+        match st {
+            Step::D(o) => r.input(*o, true),
+            Step::U(o) => r.input(*o, false),
+            Step::T(n) => {
+                for _ in 0..*n {
+                    tick1(&mut r);
+                }
+            }
+            Step::W(n) => {
+                let mut fuel = W_FUEL;
+                while r.k.dynamic_macro_replay_state.is_some() {
+                    if fuel == 0 {
+                        return "hang".to_string();
+                    }
+                    fuel -= 1;
+                    tick1(&mut r);
+                }
+                for _ in 0..*n {
+                    tick1(&mut r);
+                }
+            }
+            _ => {}
+        }
+    }
+    let mut h = r.held.clone();
+    h.sort();
+    for o in h {
+        r.input(o, false);
+    }
+    let mut rest = true;
+    for i in 0..L_TAIL {
+        let n = r.drain().len();
+        tick1(&mut r);
+        let n = n + r.drain().len();
+        if i >= L_TAIL - L_QUIET && (n != 0 || r.k.dynamic_macro_replay_state.is_some()) {
+            rest = false;
+        }
+    }
+    r.drain();
+    let mut down: Vec<u16> = vec![];
+    for e in &r.trace {
+        down.retain(|x| *x != e.2);
+        if e.1 {
+            down.push(e.2);
+        }
+    }
+    let mut os: Vec<String> =
+        r.trace.iter().take(60).map(|(t, d, c)| format!("{}{}@{}", if *d { '+' } else { '-' }, c, t)).collect();
+    if r.trace.len() > 60 {
+        os.push(format!("...{}", r.trace.len()));
+    }
+    format!(
+        "L {} # st {} # V rest={} starts={} clean={}",
+        if os.is_empty() { "-".to_string() } else { os.join(",") },
+        store_str(&r.k.dynamic_macros),
+        rest as u8,
+        starts,
+        down.is_empty() as u8
+    )
 }
 
 // ------------------------------------------------------------------ generators
@@ -1398,5 +1546,105 @@ pub fn gen(tier: &str, seed: u64) -> Vec<String> {
         let c = gen_random_k(&mut r, i % 4 == 0);
         lines.push(k_line(&with_k_hints(&c)));
     }
+    gen_late(thorough, seed, &mut lines);
     lines
+}
+
+/// L lines: dynamic-macro actions that fire late (see `run_l`). Keys: 1 = record 1, 2 = record 2,
+/// 8 = the stop key, 5 = play 1, 6 = play 2, a/b = plain keys, e = a tap-hold with outputs, d = the
+/// key under test. Every session records macro 1 (typing a, possibly the key under test), stops it
+/// with one tap of the stop key and replays it once.
+fn gen_late(thorough: bool, seed: u64, lines: &mut Vec<String>) {
+    let mut r = Rng::new(seed ^ 0xC19D);
+    let o = |n: &str| osc(n);
+    let cfg = |beh: &str, d_act: &str, stop_act: &str, t: u32| -> String {
+        format!(
+            "(defcfg dynamic-macro-replay-delay-behaviour {beh})\n(defsrc 1 2 a b e d 8 5 6)\n(deflayer base (dynamic-macro-record 1) (dynamic-macro-record 2) a b (tap-hold {t} {t} x y) {d_act} {stop_act} (dynamic-macro-play 1) (dynamic-macro-play 2))\n"
+        )
+    };
+    let tap = |st: &mut Vec<Step>, k: u16, hold: u32, after: u32| {
+        st.push(Step::D(k));
+        st.push(Step::T(hold));
+        st.push(Step::U(k));
+        st.push(Step::T(after));
+    };
+    let plain_stop = "dynamic-macro-record-stop";
+    for beh in ["recorded", "constant"] {
+        for t in [50u32, 100, 200] {
+            // (A) the key under test plays a macro late; `own` = it plays the macro being recorded
+            let late_play: Vec<(String, u32, bool)> = vec![
+                (format!("(tap-dance {t} ((dynamic-macro-play 1) c))"), 10, true),
+                (format!("(tap-dance {t} (c (dynamic-macro-play 1)))"), 10, true),
+                (format!("(tap-hold {t} {t} (dynamic-macro-play 1) z)"), 10, true),
+                (format!("(tap-hold {t} {t} z (dynamic-macro-play 1))"), t + 20, true),
+                (format!("(tap-dance {t} ((dynamic-macro-play 2) c))"), 10, false),
+                (format!("(tap-hold {t} {t} (dynamic-macro-play 2) z)"), 10, false),
+                ("(dynamic-macro-play 1)".to_string(), 10, true),
+            ];
+            for (d_act, hold, own) in &late_play {
+                let c = cfg(beh, d_act, plain_stop, t);
+                for after in [1u32, 10, t + 50] {
+                    for (behind_th, settle) in [(false, false), (true, false), (false, true), (true, true)] {
+                        let mut st = vec![];
+                        if !*own {
+                            // macro 2 exists: a tap of b
+                            tap(&mut st, o("2"), 5, 5);
+                            tap(&mut st, o("b"), 5, 5);
+                            tap(&mut st, o("2"), 5, 5);
+                        }
+                        tap(&mut st, o("1"), 10, 10);
+                        tap(&mut st, o("a"), 10, 10);
+                        if behind_th {
+                            // the key under test is typed while the tap-hold e is undecided
+                            st.push(Step::D(o("e")));
+                            st.push(Step::T(3));
+                            tap(&mut st, o("d"), *hold, 3);
+                            st.push(Step::U(o("e")));
+                            st.push(Step::T(after));
+                        } else {
+                            tap(&mut st, o("d"), *hold, after);
+                        }
+                        // a second tap of the dance key selects the second item
+                        if d_act.starts_with("(tap-dance") && d_act.contains("(c (") {
+                            tap(&mut st, o("d"), 10, after);
+                        }
+                        // settled: the late action has fired before the recording is stopped;
+                        // otherwise the stop key is pressed while it is still pending
+                        if settle {
+                            st.push(Step::W(t + 50));
+                        }
+                        tap(&mut st, o("8"), 10, 10);
+                        tap(&mut st, o("5"), 10, 10);
+                        st.push(Step::W(10));
+                        lines.push(l_line(&LCase { cfg: c.clone(), stops: vec![o("8")], steps: st }));
+                    }
+                }
+            }
+            // (B) the stop action fires late: on the release of its key, or at the dance timeout
+            let late_stop: Vec<String> = vec![
+                plain_stop.to_string(),
+                format!("(tap-hold {t} {t} dynamic-macro-record-stop z)"),
+                format!("(tap-dance {t} (dynamic-macro-record-stop c))"),
+                format!("(tap-hold {t} {t} (dynamic-macro-record-stop-truncate 1) z)"),
+                "(dynamic-macro-record-stop-truncate 2)".to_string(),
+            ];
+            for stop_act in &late_stop {
+                let c = cfg(beh, "d", stop_act, t);
+                for n_typed in [0usize, 1, 3] {
+                    for hold in [1u32, 10, t - 5] {
+                        let mut st = vec![];
+                        tap(&mut st, o("1"), 10, 10);
+                        for i in 0..n_typed {
+                            tap(&mut st, o(*r.pick(&["a", "b", "d"])), 5 + i as u32, *r.pick(&[1u32, 5, 20]));
+                        }
+                        tap(&mut st, o("8"), hold, t + 50);
+                        tap(&mut st, o("5"), 10, 10);
+                        st.push(Step::W(10));
+                        lines.push(l_line(&LCase { cfg: c.clone(), stops: vec![o("8")], steps: st }));
+                    }
+                }
+            }
+        }
+    }
+    let _ = thorough;
 }
